@@ -153,6 +153,38 @@ pub fn run(rec: &mut Recorder, w: &mut World, tier: &str, seed: u64) {
         rec.nontrivial_case(&format!("{:?}", hist));
         if hi == n_ex { rec.sample(hist.iter().take(8).map(|s| st_line(s).join(" / ").replace('\t', " ")).collect::<Vec<_>>().join(" ; ")); }
     }
+    // ---- construction: both enforcers built from a model pre-filled by an adapter-level filtered load and that
+    //      (now filtered) adapter; then a short history in lock-step ----
+    let n_ctor = (if tier == "thorough" { 300 } else { 30 }) * rec.budget as usize;
+    for _ in 0..n_ctor {
+        let mut lines: Vec<Vec<String>> = vec![];
+        for _ in 0..2 + rng.below(4) { let mut l = sv(&["p", "p"]); l.extend(gen_p(&mut rng, &subs)); if !lines.contains(&l) { lines.push(l); } }
+        for _ in 0..rng.below(3) { let l = sv(&["g", "g", *rng.pick(&subs), *rng.pick(&["admin", "bob"])]); if l[2] != l[3] && !lines.contains(&l) { lines.push(l); } }
+        let fp = vec![lines[0][2].clone()];
+        let hist: Vec<St> = (0..rng.below(4)).map(|_| gen_step(&mut rng)).collect();
+        rec.begin();
+        let mut both: Vec<Vec<String>> = vec![];
+        for cached in [true, false] {
+            rec.exec(w, &format!("e.cached\t{}", cached));
+            model(0).emit(rec, w);
+            let r = rec.exec(w, &format!("e.newfilt\tmemory\t{}\t\t{}\t-", enc_lists(&lines), enc_list(&fp)));
+            let mut outs = vec![r, rec.exec(w, "e.pol"), rec.exec(w, "e.filtered"), rec.exec(w, &format!("e.enfs\t{}", reqf))];
+            for s in &hist {
+                if matches!(s, St::SetModel(_)) { continue; }
+                for l in st_line(s) { rec.exec(w, &l); }
+                outs.push(rec.exec(w, &format!("e.enfs\t{}", reqf)));
+                outs.push(rec.exec(w, &format!("e.enfcs\t2\t{}", reqf)));
+            }
+            rec.exec(w, "e.cached\tfalse");
+            both.push(outs);
+        }
+        if both[0] != both[1] {
+            let i = both[0].iter().zip(both[1].iter()).position(|(a, c)| a != c).unwrap_or(0);
+            rec.fail("cached-constructor-differs", format!("built from a model pre-filled through load_filtered_policy(p={:?}) of {:?} and that filtered adapter: cached enforcer gives {} where the plain one gives {} (observation {})", fp, lines, both[0][i], both[1][i], i));
+        }
+        rec.count("constructor:filtered-adapter");
+        rec.nontrivial_case(&format!("ctor|{:?}|{:?}", lines, fp));
+    }
     rec.count_n("histories:exhaustive", n_ex as u64);
     rec.count_n("histories:random", n_rand as u64);
     rec.exhaustive = true;
